@@ -342,7 +342,7 @@ func (fr *Frame) frameObligations(st *State, preHeaps map[string]Term, alloc0 Te
 	}
 	sort.Strings(names)
 	for _, hn := range names {
-		skip := false
+		skip := strings.HasPrefix(hn, "R:") // ghost attribute heaps are not part of frames
 		for _, t := range tgs {
 			if (t.pkgHeaps != "" && heapOfPkg(hn, t.pkgHeaps)) || (t.heapName != "" && (t.heapName == hn || (t.heapPfx && strings.HasPrefix(hn, t.heapName+".")))) {
 				skip = true
